@@ -11,6 +11,7 @@ import (
 	"strconv"
 	"strings"
 	"sync"
+	"sync/atomic"
 	"time"
 
 	"github.com/mmcloughlin/addchain/verifhooks"
@@ -368,6 +369,10 @@ func c14RunOut(job c14Job, mult int) c14Out {
 	identP, identRuns := true, true
 	var ref *cliResult
 	for k, p := range job.Ps {
+		if pr.timedOut {
+			identP, identRuns = false, false
+			break // the primary run did not finish: nothing to compare, and every further run would wait as long
+		}
 		r := runCLI(searchArgs(false, p, A, D, job.expr), nil, to)
 		out.timedOut = out.timedOut || r.timedOut
 		if r.exit != pr.exit || !bytes.Equal(r.stdout, script) {
@@ -494,18 +499,36 @@ func genC14(g *Gen) {
 		jobs = append(jobs, c14Job{expr: x.e, A: x.a, D: x.d, Ps: []int{16, 1, 3}, tag: "extra"})
 	}
 	outs := make([]c14Out, len(jobs))
-	parallelMap(len(jobs), cliWorkers(), func(i int) { outs[i] = c14RunOut(jobs[i], 1) })
-	// a timeout may be caused by a loaded machine: re-run that case alone with three times the budget
-	for i := range outs {
+	done := make([]bool, len(jobs))
+	var timeouts int32
+	parallelMap(len(jobs), cliWorkers(), func(i int) {
+		if atomic.LoadInt32(&timeouts) >= 4 {
+			return // several cases already ran out of time: the rest would only wait as long
+		}
+		outs[i] = c14RunOut(jobs[i], 1)
+		done[i] = true
 		if outs[i].timedOut {
+			atomic.AddInt32(&timeouts, 1)
+		}
+	})
+	// a timeout may be caused by a loaded machine: re-run that case alone with three times the
+	// budget; after two confirmed timeouts the remaining ones are reported as they are
+	confirmed := 0
+	for i := range outs {
+		if done[i] && outs[i].timedOut && confirmed < 2 {
 			g.Count("timeout-rerun")
 			outs[i] = c14RunOut(jobs[i], 3)
 			if outs[i].timedOut {
 				g.Count("timeout-confirmed")
+				confirmed++
 			}
 		}
 	}
 	for i := range outs {
+		if !done[i] {
+			g.Count("not-run-after-timeouts")
+			continue
+		}
 		g.Line(outs[i].fields...)
 		g.Count(jobs[i].tag)
 	}
